@@ -205,7 +205,10 @@ func (vc *VC) store(st *State, p Val, t types.Type, v Val) {
 		}
 		return
 	}
-	if _, ok := t.Underlying().(*types.Array); ok {
+	if at, ok := t.Underlying().(*types.Array); ok {
+		if at.Len() == 0 {
+			return // zero-length marker arrays (protobuf DoNotCompare etc.) hold nothing
+		}
 		vc.unsupported("array value store")
 		return
 	}
